@@ -92,9 +92,11 @@ def run(c, index, tier):
     if fragile.any():
         c.probe("rows_at_floating_point_tie", int(fragile.sum()))
     c.log.ev("result", "ref", [(m, C.ahash(v)) for m, v in sorted(ref.items())])
+    unseen_idx = numpy.array([], dtype=int)
     if spec.name in ("PiecewiseRegressor", "PiecewiseClassifier"):
         try:
-            if numpy.any(numpy.asarray(est.transform_bins(Xb)) == -1):
+            unseen_idx = numpy.where(numpy.asarray(est.transform_bins(Xb)) == -1)[0]
+            if unseen_idx.size:
                 c.probe("row_in_unseen_bucket")
         except Exception:  # noqa: BLE001
             pass
@@ -105,6 +107,8 @@ def run(c, index, tier):
         kinds = ["sub", "perm", "single", "dup", "repeat", "pickle", "cwfp"]
         if spec.has_n_jobs:
             kinds.append("n_jobs")
+        if unseen_idx.size:
+            kinds.append("unseen-only")
         op = ch.choice("w", kinds, "op")
         if len(c.scenario["ops"]) < 20:
             c.scenario["ops"].append(op)
@@ -149,7 +153,13 @@ def run(c, index, tier):
             idx = rs.permutation(m_rows)
         elif op == "single":
             idx = numpy.array([ch.draw("w", m_rows, "row")])
+            if unseen_idx.size and ch.boolean("w", 0.5, "single-unseen"):
+                idx = numpy.array([unseen_idx[ch.draw("w", unseen_idx.size, "unseen-row")]])
+                c.probe("single_row_in_unseen_bucket")
             c.probe("single_row_batch")
+        elif op == "unseen-only":
+            idx = unseen_idx[: ch.integer("w", 1, unseen_idx.size, "unseen-count")]
+            c.probe("batch_of_unseen_rows_only")
         elif op == "dup":
             idx = rs.randint(0, m_rows, ch.integer("w", 2, m_rows + 3, "dup-size"))
         else:
